@@ -208,7 +208,9 @@ CHECKS["C11"] = dict(
           "Decided on the REAL tools for every formulation, including those without an independent assembly oracle "
           "(axisymmetric magnetostatics, time-harmonic planar and axisymmetric): triples of runs (S1, S2, a*S1+b*S2) and a "
           "zero-excitation run on the identical mesh compared node by node, reciprocity pairs through the real "
-          "post-processor, and a harmonic solve at vanishing frequency against the static one."),
+          "post-processor, and harmonic solves at vanishing frequency against the static ones (solid materials, in-plane laminations "
+          "with a thickness, and fill factors without a thickness - the last a recorded known finding; the laminated pairs found "
+          "the StaticAxisymmetric permeability defect repaired in 1be5920)."),
     design_ref="DESIGN.md section 3, C11",
     technique="Lean 4 proof (abstract linear algebra: superposition, symmetric bilinear form => reciprocity) + run triples / reciprocity pairs on the real tools in all eight formulations",
 )
